@@ -1983,3 +1983,97 @@ def compression_arms(report, R, db, S, M):
                         rc.name, {k: show(v) for k, v in sorted(
                             stores.items())}))
     return n
+
+
+# ---------------------------------------------------------------------------
+def decorator_form(report, R, db, S, M, outer_name, reg_name, option_keys):
+    """Connection.<outer>(*types, **options) returns a decorator; applying it
+    registers the handler exactly as <reg>(handler, *types, **options) would
+    -- every time it is applied: the decorator must not use up what it
+    captured."""
+    from .pathsum import MUTATORS, struct, show
+
+    def sy(n):
+        return ('sym', n)
+    lst = db.own_method(M.conn, outer_name)
+    if lst is None:
+        raise AnalysisError('Connection.%s vanished' % outer_name)
+    reg = M.conn_method(reg_name)
+    inner = [f for f in db.funcs if f.outer is lst]
+    if len(inner) != 1:
+        raise AnalysisError('Connection.%s: expected one nested ' % outer_name +
+                            'decorator, found %d' % len(inner), lst.node,
+                            rel(lst.path))
+    dec = inner[0]
+    va = lst.node.args.vararg
+    kw = lst.node.args.kwarg
+    captured = set(lst.params) | ({va.arg} if va else set()) | (
+        {kw.arg} if kw else set())
+    prob = []
+    site = dec.node
+    n = 0
+    for p in S.run(dec):
+        evs = p.flat(('call', 'setitem', 'delitem', 'store'))
+        for e in evs:
+            recv = None
+            if e.kind == 'call' and e.fn[0] == 'attr' and \
+                    e.fn[2] in MUTATORS:
+                recv = e.fn[1]
+            elif e.kind in ('setitem', 'delitem'):
+                recv = e.base
+            if recv is not None and recv[0] == 'sym' and recv[1] in captured:
+                prob.append('the decorator changes the captured `%s` (%s): '
+                            'the second handler it is applied to is '
+                            'registered with what the first one left'
+                            % (recv[1], repr(e)[:50]))
+                site = e.node
+        if not p.returns:
+            if p.raises and len(p.outcome) == 3:
+                continue        # an explicit refusal of bad options
+            continue
+        n += 1
+        regs = [e for e in evs if e.kind == 'call' and e.calls(reg)]
+        if len(regs) != 1:
+            prob.append('an application registers %d listeners [%s]'
+                        % (len(regs), p.cond_text()))
+            continue
+        e = regs[0]
+        args = [a for a in e.args if struct(a) != sy(lst.params[0])]
+        if not args or struct(args[0]) != sy(dec.params[0]):
+            prob.append('the decorated function is not the handler that is '
+                        'registered')
+        if va and not any(a[0] == 'op' and a[1] == 'star' and
+                          struct(a[2][0]) == sy(va.arg) for a in args[1:]):
+            prob.append('the types given to the decorator factory are not '
+                        'passed on')
+        if kw:
+            kws = dict(e.kwargs)
+            if struct(kws.get('**', ('none',))) != sy(kw.arg):
+                for k in option_keys:
+                    v = kws.get(k)
+                    ok = v is not None and (
+                        (v[0] == 'call' and v[1][0] == 'attr'
+                         and struct(v[1][1]) == sy(kw.arg)
+                         and v[1][2] in ('get', 'pop') and v[2]
+                         and v[2][0] == ('const', k))
+                        or (v[0] == 'op' and v[1] == 'index'
+                            and struct(v[2][0]) == sy(kw.arg)
+                            and v[2][1] == ('const', k)))
+                    if not ok:
+                        prob.append('the option `%s` given to the decorator factory is '
+                                    'not what the registration receives (%s)'
+                                    % (k, show(v) if v is not None
+                                       else 'nothing'))
+        if p.value is None or struct(p.value) != sy(dec.params[0]):
+            prob.append('the decorator does not return the function it '
+                        'decorated')
+    if not n:
+        raise AnalysisError('%s decorator: no returning path' % outer_name,
+                            dec.node, rel(dec.path))
+    if prob:
+        report.violation(R, 'decorator:%s' % outer_name, dec.path, site,
+                         dec.qualname, '; '.join(sorted(set(prob))))
+    else:
+        report.ok(R, outer_name + '(...)(f): one registration of f with the '
+                  'captured types and options, nothing captured is changed, '
+                  'f returned')
